@@ -460,6 +460,46 @@ def concurrent_objects(res, rng, dumps):
                 return
 
 
+def abandoned_requests(res, rng, dumps):
+    """A request is started on a front-end object and given up half-way (its iterator dropped, closed, or left to the
+    garbage collector) WHILE a later request on the same object is being read: the later request - whose thread map the
+    object's tables hold - prints every line as it does alone."""
+    import gc
+    cfg = {'show_timestamp': True, 'show_tid': True, 'show_process': True}
+    a, b = dumps
+    for method in ('formatted_traces', 'formatted_kevents', 'formatted_callstacks'):
+        for how in ('del', 'close', 'gc'):
+            try:
+                alone = list(getattr(front(cfg), method)(io.BytesIO(b['data'])))
+                p = front(cfg)
+                it_a = getattr(p, method)(io.BytesIO(a['data']))
+                taken = list(itertools.islice(it_a, rng.randrange(1, 4)))
+                it_b = getattr(p, method)(io.BytesIO(b['data']))
+                got = list(itertools.islice(it_b, 1))
+                if how == 'close':
+                    getattr(it_a, 'close', lambda: None)()
+                elif how == 'del':
+                    del it_a
+                else:
+                    holder = [it_a]
+                    holder.append(holder)           # a reference cycle: only the collector frees it
+                    del it_a, holder
+                gc.collect()
+                got += list(it_b)
+            except Exception as x:
+                res.violation(f'c14-raises-{core.exc_name(x)}', f'{method}: request abandoned ({how}) while a later one is read: '
+                              f'{x!r}', {'files': [a['data'], b['data']]})
+                return
+            res.count('abandoned_request_histories')
+            if got != alone:
+                k = next((j for j, (x, y) in enumerate(zip(got, alone)) if x != y), min(len(got), len(alone)))
+                res.violation('c14-line-depends-on-an-abandoned-request', f'{method}: an earlier, unfinished request on the same '
+                              f'object was given up ({how}) after the first line of this one was read: line {k} reads '
+                              f'{got[k] if k < len(got) else None!r}, alone {alone[k] if k < len(alone) else None!r}',
+                              {'files': [a['data'], b['data']]})
+                return
+
+
 def threaded_objects(res, rng, dumps):
     """The same on OS threads: every thread lists its own dump with its own front-end object (plain and coloured), all at
     the same time with the interpreter switching threads every few bytecodes; lines are taken one by one and only the
@@ -631,6 +671,8 @@ def run(ctx):
             cli_on_a_terminal(res, rng, dump)
         if prev_dump is not None and i % 2:
             concurrent_objects(res, rng, [prev_dump, dump])
+            if i % 4 == 3:
+                abandoned_requests(res, rng, [prev_dump, dump])
             if i % 4 == 1:
                 threaded_objects(res, rng, [prev_dump, dump])
         prev_dump = dump
@@ -659,6 +701,7 @@ def run(ctx):
     res.require('compositions_under_event_filters', 10)
     res.require('cli_listings_compared', 12)
     res.require('concurrent_object_listings', 6)
+    res.require('abandoned_request_histories', 9)
     res.require('listings_by_concurrent_threads', 16)
     res.require('callstacks_of_threads_remapped_or_renamed_earlier', 1)
     res.require('callstacks_of_threads_renamed_under_the_same_pid', 1)
